@@ -325,8 +325,7 @@ Proof.
   - unfold c05_member_ok. apply forallb_forall. intros os Hin. exact (proj2 (Hstates os Hin)).
   - unfold c05_active_ok, model_obs. cbn [oo_evs]. apply forallb_forall.
     intros oe Hin. apply in_map_iff in Hin. destruct Hin as [e [Heq Hin]]. subst oe.
-    cbn [oev_of oe_act oe_path act_of fst snd]. unfold shape_at, k_sp. cbn [sp_shape].
-    rewrite !Z.eqb_refl. reflexivity.
+    cbn [oev_of oe_act oe_path act_of fst snd]. rewrite !Z.eqb_refl. reflexivity.
 Qed.
 
 (* ---------- what raw_ok means, fiber by fiber ---------- *)
